@@ -178,7 +178,11 @@ impl Prop for C12 {
     out.sample = Some(json!({"modules": mods.len(), "faults": art["faults"], "verdict": verdicts[0], "program": super::fmt_common::short(&describe(&mods), 500)}));
     let prog = || describe(&mods);
     if verdicts.iter().any(|v| *v != verdicts[0]) {
-      out.fail("verdict-differs-between-processes", format!("verdicts by RAYON_NUM_THREADS {:?}: {:?}\n{}", THREADS, verdicts, prog()));
+      // name the verdicts and, for panics, the site: a schedule-dependent compiler panic is a different finding from a flipping accept / reject
+      let mut kinds: Vec<String> = results.iter().map(|(_, v)| match v["verdict"].as_str().unwrap_or("?") { "panicked" => format!("panicked({})", v["where"].as_str().unwrap_or("?")), x => x.to_string() }).collect();
+      kinds.sort();
+      kinds.dedup();
+      out.fail(format!("verdict-differs-between-processes/{}", kinds.join("+")), format!("verdicts by RAYON_NUM_THREADS {:?}: {:?}\npanic messages: {:?}\n{}", THREADS, verdicts, results.iter().filter_map(|(_, v)| v["message"].as_str().map(|m| m.chars().take(160).collect::<String>())).collect::<Vec<_>>(), prog()));
       return out;
     }
     match verdicts[0] {
